@@ -62,14 +62,340 @@ static RDMCommand *make_cmd(const string &s) {
 static string res_s(RDMCommand *c, int status, bool has_status) {
   if (!c) return "st=" + vh::str(has_status ? status : 255);
   std::auto_ptr<RDMCommand> holder(c);
+  if (has_status && status != RDM_COMPLETED_OK) return "st=ok-with-status-" + vh::str(status);
   ola::io::ByteString out;
   string rp = RDMCommandSerializer::Pack(*c, &out) ? vh::hex(out.data(), out.size()) : "none";
   return "st=ok;cmd=" + cmd_s(c) + ";repack=" + rp;
 }
 
+
+// ---- round 2: every entry point ------------------------------------------------------------
+struct Fields {
+  UID src, dst; uint8_t tn, port, mc; uint16_t sub; int cc; uint16_t pid; vector<uint8_t> d;
+  Fields() : src(0, 0), dst(0, 0), tn(0), port(0), mc(0), sub(0), cc(0), pid(0) {}
+  const uint8_t *dp() const { return d.empty() ? NULL : d.data(); }
+};
+static Fields parse_fields(const string &s) {
+  vector<string> f = vh::split(s, ',');
+  Fields r;
+  r.src = uid_p(f[0]); r.dst = uid_p(f[1]); r.tn = vh::num(f[2]); r.port = vh::num(f[3]);
+  r.mc = vh::num(f[4]); r.sub = vh::num(f[5]); r.cc = vh::num(f[6]); r.pid = vh::num(f[7]);
+  r.d = vh::unhex(f[8]);
+  return r;
+}
+static bool is_req_cc(int cc) {
+  return cc == RDMCommand::GET_COMMAND || cc == RDMCommand::SET_COMMAND || cc == RDMCommand::DISCOVER_COMMAND;
+}
+// variant 'g': the generic RDMRequest constructor; 's': the class-specific subclass
+static RDMRequest *make_request(const Fields &f, char variant, RDMRequest::OverrideOptions opt) {
+  opt.message_count = f.mc;
+  if (variant == 's') {
+    switch (f.cc) {
+      case RDMCommand::GET_COMMAND:
+        return new RDMGetRequest(f.src, f.dst, f.tn, f.port, f.sub, f.pid, f.dp(), f.d.size(), opt);
+      case RDMCommand::SET_COMMAND:
+        return new RDMSetRequest(f.src, f.dst, f.tn, f.port, f.sub, f.pid, f.dp(), f.d.size(), opt);
+      case RDMCommand::DISCOVER_COMMAND:
+        return new RDMDiscoveryRequest(f.src, f.dst, f.tn, f.port, f.sub, f.pid, f.dp(), f.d.size(), opt);
+      default: break;
+    }
+  }
+  return new RDMRequest(f.src, f.dst, f.tn, f.port, f.sub,
+                        static_cast<RDMCommand::RDMCommandClass>(f.cc), f.pid, f.dp(), f.d.size(), opt);
+}
+static RDMResponse *make_response(const Fields &f, char variant) {
+  if (variant == 's') {
+    switch (f.cc) {
+      case RDMCommand::GET_COMMAND_RESPONSE:
+        return new RDMGetResponse(f.src, f.dst, f.tn, f.port, f.mc, f.sub, f.pid, f.dp(), f.d.size());
+      case RDMCommand::SET_COMMAND_RESPONSE:
+        return new RDMSetResponse(f.src, f.dst, f.tn, f.port, f.mc, f.sub, f.pid, f.dp(), f.d.size());
+      case RDMCommand::DISCOVER_COMMAND_RESPONSE:
+        return new RDMDiscoveryResponse(f.src, f.dst, f.tn, f.port, f.mc, f.sub, f.pid, f.dp(), f.d.size());
+      default: break;
+    }
+  }
+  return new RDMResponse(f.src, f.dst, f.tn, f.port, f.mc, f.sub,
+                         static_cast<RDMCommand::RDMCommandClass>(f.cc), f.pid, f.dp(), f.d.size());
+}
+static RDMCommand *make_any(const Fields &f, char variant) {
+  if (is_req_cc(f.cc)) return make_request(f, variant, RDMRequest::OverrideOptions());
+  return make_response(f, variant);
+}
+
+// result of one decoder on `packed`: "ok/<fields>/<same|repack hex>", "rej" (NULL, no status) or "rej<status>"
+static string ep_s(RDMCommand *c, int status, bool has_status, const string &packed_hex) {
+  if (!c) return "rej" + (has_status ? vh::str(status) : string(""));
+  std::auto_ptr<RDMCommand> holder(c);
+  if (has_status && status != RDM_COMPLETED_OK) return "ok-with-status-" + vh::str(status);
+  ola::io::ByteString out;
+  string rp = RDMCommandSerializer::Pack(*c, &out) ? vh::hex(out.data(), out.size()) : "none";
+  return "ok/" + cmd_s(c) + "/" + (rp == packed_hex ? "same" : rp);
+}
+static string reply_s(RDMReply *reply_p, const RDMFrame &frame, const string &packed_hex) {
+  std::auto_ptr<RDMReply> reply(reply_p);
+  (void) frame;
+  RDMResponse *r = reply->MutableResponse();
+  if (!r) return "rej" + vh::str(static_cast<int>(reply->StatusCode()));
+  if (reply->StatusCode() != RDM_COMPLETED_OK)
+    return "ok-with-status-" + vh::str(static_cast<int>(reply->StatusCode()));
+  ola::io::ByteString out;
+  string rp = RDMCommandSerializer::Pack(*r, &out) ? vh::hex(out.data(), out.size()) : "none";
+  return "ok/" + cmd_s(r) + "/" + (rp == packed_hex ? "same" : rp);
+}
+// every decoder entry point on the same bytes
+static string all_entry_points(const vector<uint8_t> &bytes, const string &packed_hex, const RDMRequest *rq) {
+  string r;
+  { vh::Exact e(bytes); r += ";inf=" + ep_s(RDMCommand::Inflate(e.p, e.n), 0, false, packed_hex); }
+  { vh::Exact e(bytes); r += ";req=" + ep_s(RDMRequest::InflateFromData(e.p, e.n), 0, false, packed_hex); }
+  { vh::Exact e(bytes); r += ";dreq=" + ep_s(RDMDiscoveryRequest::InflateFromData(e.p, e.n), 0, false, packed_hex); }
+  { vh::Exact e(bytes); r += ";dresp=" + ep_s(RDMDiscoveryResponse::InflateFromData(e.p, e.n), 0, false, packed_hex); }
+  { vh::Exact e(bytes); RDMStatusCode st = RDM_COMPLETED_OK;
+    RDMResponse *x = RDMResponse::InflateFromData(e.p, e.n, &st, rq);
+    r += ";resp=" + ep_s(x, st, true, packed_hex); }
+  { ola::io::ByteString in(bytes.data(), bytes.size()); RDMStatusCode st = RDM_COMPLETED_OK;
+    RDMResponse *x = RDMResponse::InflateFromData(in, &st, rq);
+    r += ";respbs=" + ep_s(x, st, true, packed_hex); }
+  { vector<uint8_t> fb(1, ola::rdm::START_CODE); fb.insert(fb.end(), bytes.begin(), bytes.end());
+    vh::Exact e(fb); RDMFrame frame(e.p, e.n);
+    r += ";frame=" + reply_s(RDMReply::FromFrame(frame, rq), frame, packed_hex); }
+  { vh::Exact e(bytes); RDMFrame frame(e.p, e.n, RDMFrame::Options(true));
+    r += ";framep=" + reply_s(RDMReply::FromFrame(frame, rq), frame, packed_hex); }
+  { ola::io::ByteString in(bytes.data(), bytes.size()); RDMFrame frame(in, RDMFrame::Options(true));
+    r += ";framepb=" + reply_s(RDMReply::FromFrame(frame, rq), frame, packed_hex); }
+  return r;
+}
+
+// the serialisers of RDMCommandSerializer on one command: "<ok>/<bytes>" for each
+static string all_packers(const RDMCommand &c) {
+  ola::io::ByteString out;
+  bool ok = RDMCommandSerializer::Pack(c, &out);
+  string base = ok ? vh::hex(out.data(), out.size()) : "none";
+  string r = "packed=" + base;
+  r += ";rsz=" + vh::str(RDMCommandSerializer::RequiredSize(c));
+  // Pack into an exact-size buffer, and one byte too small
+  unsigned int need = ok ? out.size() : 0;
+  {
+    uint8_t *b = new uint8_t[need ? need : 1]; unsigned int sz = need;
+    bool k = RDMCommandSerializer::Pack(c, b, &sz);
+    r += ";pbuf=" + string(k ? "1/" : "0/") + (k ? vh::hex(b, sz) : "-");
+    delete[] b;
+  }
+  if (need) {
+    uint8_t *b = new uint8_t[need - 1]; unsigned int sz = need - 1;
+    bool k = RDMCommandSerializer::Pack(c, b, &sz);
+    r += ";psmall=" + string(k ? "1" : "0") + "/" + vh::str(sz);
+    delete[] b;
+  } else {
+    uint8_t b[600]; unsigned int sz = sizeof(b);
+    bool k = RDMCommandSerializer::Pack(c, b, &sz);
+    r += ";psmall=" + string(k ? "1" : "0") + "/" + vh::str(sz);
+  }
+  {
+    ola::io::IOStack st;
+    bool k = RDMCommandSerializer::Write(c, &st);
+    uint8_t b[600]; unsigned int sz = st.Read(b, sizeof(b));
+    r += ";wr=" + string(k ? "1/" : "0/") + vh::hex(b, sz);
+  }
+  {  // Pack appends to what is already in the output
+    ola::io::ByteString o2; o2.push_back(0xaa); o2.push_back(0xcc); o2.push_back(0x01);
+    bool k = RDMCommandSerializer::Pack(c, &o2);
+    r += ";papp=" + string(k ? "1/" : "0/") + vh::hex(o2.data(), o2.size());
+  }
+  {
+    ola::io::ByteString o3;
+    bool k = RDMCommandSerializer::PackWithStartCode(c, &o3);
+    r += ";pwsc=" + string(k ? "1/" : "0/") + vh::hex(o3.data(), o3.size());
+    ola::io::ByteString o4; o4.push_back(0x55);
+    k = RDMCommandSerializer::PackWithStartCode(c, &o4);
+    r += ";pwsc2=" + string(k ? "1/" : "0/") + vh::hex(o4.data(), o4.size());
+  }
+  return r;
+}
+
+static string op_rt(const vector<string> &a) {      // rt <g|s> <cmd>
+  Fields f = parse_fields(a[2]);
+  std::auto_ptr<RDMCommand> c(make_any(f, a[1][0]));
+  string r = all_packers(*c);
+  ola::io::ByteString out;
+  if (!RDMCommandSerializer::Pack(*c, &out)) return r;
+  vector<uint8_t> bytes(out.begin(), out.end());
+  r += all_entry_points(bytes, vh::hex(out.data(), out.size()), NULL);
+  // C++ equality of the original with what RDMCommand::Inflate returns
+  vh::Exact e(bytes);
+  std::auto_ptr<RDMCommand> back(RDMCommand::Inflate(e.p, e.n));
+  r += ";eqback=" + string(back.get() ? ((*back == *c && *c == *back) ? "1" : "0") : "none");
+  // Duplicate() of the original serialises identically
+  ola::io::ByteString dout;
+  if (RDMRequest *rq = dynamic_cast<RDMRequest*>(c.get())) {
+    std::auto_ptr<RDMRequest> d(rq->Duplicate());
+    RDMCommandSerializer::Pack(*d, &dout);
+  } else if (RDMResponse *rs = dynamic_cast<RDMResponse*>(c.get())) {
+    std::auto_ptr<RDMResponse> d(rs->Duplicate());
+    RDMCommandSerializer::Pack(*d, &dout);
+  }
+  r += ";dup=" + vh::hex(dout.data(), dout.size());
+  // setters, then serialise again
+  ola::io::ByteString sout;
+  if (RDMRequest *rq = dynamic_cast<RDMRequest*>(c.get())) {
+    r += string(";isdub=") + (rq->IsDUB() ? "1" : "0");
+    rq->SetSourceUID(f.dst);
+    rq->SetTransactionNumber(static_cast<uint8_t>(f.tn + 1));
+    rq->SetPortId(static_cast<uint8_t>(f.port + 3));
+    RDMCommandSerializer::Pack(*rq, &sout);
+  } else if (RDMResponse *rs = dynamic_cast<RDMResponse*>(c.get())) {
+    rs->SetDestinationUID(f.src);
+    rs->SetTransactionNumber(static_cast<uint8_t>(f.tn + 1));
+    RDMCommandSerializer::Pack(*rs, &sout);
+  }
+  r += ";set=" + vh::hex(sout.data(), sout.size());
+  return r;
+}
+
+// disc dub <src> <lower> <upper> <tn> <port|-> | disc mute|unmute <src> <dst> <tn> <port|->
+static string op_disc(const vector<string> &a) {
+  std::auto_ptr<RDMDiscoveryRequest> c;
+  if (a[1] == "dub") {
+    if (a[6] == "-") c.reset(NewDiscoveryUniqueBranchRequest(uid_p(a[2]), uid_p(a[3]), uid_p(a[4]), vh::num(a[5])));
+    else c.reset(NewDiscoveryUniqueBranchRequest(uid_p(a[2]), uid_p(a[3]), uid_p(a[4]), vh::num(a[5]), vh::num(a[6])));
+  } else if (a[1] == "mute") {
+    if (a[5] == "-") c.reset(NewMuteRequest(uid_p(a[2]), uid_p(a[3]), vh::num(a[4])));
+    else c.reset(NewMuteRequest(uid_p(a[2]), uid_p(a[3]), vh::num(a[4]), vh::num(a[5])));
+  } else {
+    if (a[5] == "-") c.reset(NewUnMuteRequest(uid_p(a[2]), uid_p(a[3]), vh::num(a[4])));
+    else c.reset(NewUnMuteRequest(uid_p(a[2]), uid_p(a[3]), vh::num(a[4]), vh::num(a[5])));
+  }
+  string r = "built=" + cmd_s(c.get()) + ";isdub=" + (c->IsDUB() ? "1" : "0") + ";" + all_packers(*c);
+  ola::io::ByteString out;
+  if (!RDMCommandSerializer::Pack(*c, &out)) return r;
+  vector<uint8_t> bytes(out.begin(), out.end());
+  return r + all_entry_points(bytes, vh::hex(out.data(), out.size()), NULL);
+}
+
+// null <length>: a NULL data pointer with a claimed length, every pointer-taking entry point
+static string op_null(const vector<string> &a) {
+  unsigned int n = vh::num(a[1]);
+  string r;
+  r += "inf=" + ep_s(RDMCommand::Inflate(NULL, n), 0, false, "-");
+  r += ";req=" + ep_s(RDMRequest::InflateFromData(NULL, n), 0, false, "-");
+  r += ";dreq=" + ep_s(RDMDiscoveryRequest::InflateFromData(NULL, n), 0, false, "-");
+  r += ";dresp=" + ep_s(RDMDiscoveryResponse::InflateFromData(NULL, n), 0, false, "-");
+  RDMStatusCode st = RDM_COMPLETED_OK;
+  RDMResponse *x = RDMResponse::InflateFromData(NULL, n, &st);
+  r += ";resp=" + ep_s(x, st, true, "-");
+  return r;
+}
+
+static RDMRequest::OverrideOptions parse_opts(const string &ssc, const string &ml, const string &ck) {
+  RDMRequest::OverrideOptions o;
+  o.sub_start_code = vh::num(ssc);
+  if (ml != "-") o.SetMessageLength(vh::num(ml));
+  if (ck != "-") o.SetChecksum(vh::num(ck));
+  return o;
+}
+
+static string op_packo(const vector<string> &a) {   // packo <g|s> <cmd> <ssc> <ml|-> <ck|->
+  Fields f = parse_fields(a[2]);
+  std::auto_ptr<RDMRequest> c(make_request(f, a[1][0], parse_opts(a[3], a[4], a[5])));
+  string r = all_packers(*c);
+  ola::io::ByteString out;
+  if (!RDMCommandSerializer::Pack(*c, &out)) return r;
+  vector<uint8_t> bytes(out.begin(), out.end());
+  r += all_entry_points(bytes, "-", NULL);
+  std::auto_ptr<RDMRequest> d(c->Duplicate());
+  ola::io::ByteString dout;
+  RDMCommandSerializer::Pack(*d, &dout);
+  r += ";dup=" + vh::hex(dout.data(), dout.size());
+  return r;
+}
+
+static string op_mkf(const vector<string> &a) {     // mkf <ctor 1..4> <prepend 0|1> <rq|-> <hex>
+  int ctor = vh::num(a[1]); bool prepend = a[2] == "1";
+  std::auto_ptr<RDMRequest> rq;
+  if (a[3] != "-") rq.reset(make_request(parse_fields(a[3]), 'g', RDMRequest::OverrideOptions()));
+  vector<uint8_t> bytes = vh::unhex(a[4]);
+  vh::Exact e(bytes);
+  std::auto_ptr<RDMFrame> frame;
+  if (ctor == 1) {
+    frame.reset(new RDMFrame(e.p, e.n, RDMFrame::Options(prepend)));
+  } else if (ctor == 2) {
+    ola::io::ByteString in(e.p, e.n);
+    frame.reset(new RDMFrame(in, RDMFrame::Options(prepend)));
+  } else if (ctor == 3) {            // default options (no start code prepended)
+    frame.reset(new RDMFrame(e.p, e.n));
+  } else {
+    ola::io::ByteString in(e.p, e.n);
+    frame.reset(new RDMFrame(in));
+  }
+  bool tz = frame->timing.response_time == 0 && frame->timing.break_time == 0 &&
+            frame->timing.mark_time == 0 && frame->timing.data_time == 0;
+  string r = "fd=" + vh::hex(frame->data.data(), frame->data.size()) + ";tz=" + (tz ? "1" : "0");
+  r += ";reply=" + reply_s(RDMReply::FromFrame(*frame, rq.get()), *frame, "-");
+  return r;
+}
+
+// build <g|s> <rqcmd> data <hex> <type> <mc> | pid <pid> <hex> <type> <mc> | nack <reason> <mc> | nackr <reason>
+static string op_build(const vector<string> &a) {
+  Fields f = parse_fields(a[2]);
+  const string &kind = a[3];
+  std::auto_ptr<RDMResponse> built;
+  std::auto_ptr<RDMRequest> rq;
+  if (kind == "nackr") {
+    std::auto_ptr<RDMResponse> orig(make_response(f, a[1][0]));
+    built.reset(NackWithReason(orig.get(), static_cast<rdm_nack_reason>(vh::num(a[4]))));
+  } else {
+    rq.reset(make_request(f, a[1][0], RDMRequest::OverrideOptions()));
+    if (kind == "data") {
+      vector<uint8_t> d = vh::unhex(a[4]);
+      built.reset(GetResponseFromData(rq.get(), d.empty() ? NULL : d.data(), d.size(),
+                                      static_cast<rdm_response_type>(vh::num(a[5])), vh::num(a[6])));
+    } else if (kind == "pid") {
+      vector<uint8_t> d = vh::unhex(a[5]);
+      built.reset(GetResponseWithPid(rq.get(), vh::num(a[4]), d.empty() ? NULL : d.data(), d.size(),
+                                     vh::num(a[6]), vh::num(a[7])));
+    } else if (kind == "nack") {
+      built.reset(NackWithReason(rq.get(), static_cast<rdm_nack_reason>(vh::num(a[4])), vh::num(a[5])));
+    } else if (kind == "nack0") {     // default outstanding_messages
+      built.reset(NackWithReason(rq.get(), static_cast<rdm_nack_reason>(vh::num(a[4]))));
+    } else if (kind == "ack0") {      // all defaults: empty ACK
+      built.reset(GetResponseFromData(rq.get()));
+    }
+  }
+  if (!built.get()) return "built=none";
+  string r = "built=" + cmd_s(built.get());
+  ola::io::ByteString out;
+  if (!RDMCommandSerializer::Pack(*built, &out)) return r + ";packed=none";
+  r += ";packed=" + vh::hex(out.data(), out.size());
+  vector<uint8_t> bytes(out.begin(), out.end());
+  r += all_entry_points(bytes, vh::hex(out.data(), out.size()), rq.get());
+  return r;
+}
+
+static string op_eq(const vector<string> &a) {      // eq <g|s> <cmd> <g|s> <cmd>
+  std::auto_ptr<RDMCommand> x(make_any(parse_fields(a[2]), a[1][0]));
+  std::auto_ptr<RDMCommand> y(make_any(parse_fields(a[4]), a[3][0]));
+  return string("eq=") + ((*x == *y) ? "1" : "0") + ";eqsym=" + ((*y == *x) ? "1" : "0");
+}
+
+// keys of the builder ops are reported under a "b_" prefix: what a builder puts into a command is not
+// fixed by the property (those keys are outside prop.SPEC_KEYS)
+static string prefix_keys(const string &r, const string &pre) {
+  vector<string> parts = vh::split(r, ';');
+  string out;
+  for (size_t i = 0; i < parts.size(); i++) out += (i ? ";" : "") + pre + parts[i];
+  return out;
+}
+
 static string handle(const string &p) {
   vector<string> a = vh::split(p);
   const string &op = a[0];
+  if (op == "rt") return op_rt(a);
+  if (op == "packo") return op_packo(a);
+  if (op == "mkf") return op_mkf(a);
+  if (op == "build") return prefix_keys(op_build(a), "b_");
+  if (op == "eq") return op_eq(a);
+  if (op == "disc") return prefix_keys(op_disc(a), "b_");
+  if (op == "null") return op_null(a);
   if (op == "pack") {
     std::auto_ptr<RDMCommand> c(make_cmd(a[1]));
     ola::io::ByteString out;
